@@ -347,7 +347,8 @@ def wrapper_scripts(env, rng, count, weights=None, nops=(20, 45), **kw):
                "chdir $r %s -> $r" % hx("NOPE"), "chdir $r %s -> $r" % hx("A.TXT"), "chdir $r %s -> $r" % hx(".."), "iter $r",
                "opendir $r %s -> $d2" % hx("SUB"), "dropdir $d2", "iterlfn $d2 10", "dropdir $d2", "dropfile $g", "dropfile $g",
                "delete $r %s" % hx("LONG~1.TXT"), "open $r %s RWC -> $n" % hx("NEW.TXT"), "dropfile $n", "iterlfn $r 255",
-               "hasopen", "dropdir $r", "hasopen", "closevol $v"]
+               "hasopen", "dropdir $r", "hasopen", "dropvol $v", "openvol %d -> $v2" % meta["slot"], "openroot $v2 -> $r2", "dropvol $v2", "iter $r2",
+               "dropdir $r2", "dropvol $v2", "openvol %d -> $v3" % meta["slot"], "closevol $v3"]
         env.add_script("wrapdirected", path, (1, 4, 4), ops, 5000, (), meta)
         env.add_script("wrapdirected", path, (1, 4, 4), ops, 5000, (), meta, raii=True)
 
@@ -1157,7 +1158,7 @@ def check_C08(run, replay=None):
     corpus(env, rng, {"root-dir-stale-volume"})
     id_offset_scripts(env, rng, 5 if run.tier == "quick" else 20)
     two_volume_scripts(env, rng, 3 if run.tier == "quick" else 12)
-    wrapper_scripts(env, rng, max(n // 6, 8), weights=dict(dropfile=6, dropdir=6, chdir=6, wquery=4, open=8, opendir=6, openroot=3, bad=5, iterlfn=2))
+    wrapper_scripts(env, rng, max(n // 6, 8), weights=dict(dropfile=6, dropdir=6, dropvol=3, openvol=3, chdir=6, wquery=4, open=8, opendir=6, openroot=3, bad=5, iterlfn=2))
     env.run_all()
     bad = 0
     for sc in env.scripts:
@@ -1204,6 +1205,10 @@ def c08_oracle(sc):
                 out.append("op %d: open_volume at the limit returned %s" % (k, e))
             elif len(live["v"]) < lim[0] and idx in vol_idx.values() and e != "VolumeAlreadyOpen":
                 out.append("op %d: second open of partition %d returned %s" % (k, idx, e))
+            elif e == "VolumeAlreadyOpen" and idx not in vol_idx.values():
+                out.append("op %d: open_volume of partition %d, which is not open, returned VolumeAlreadyOpen" % (k, idx))
+            elif e == "TooManyOpenVolumes" and len(live["v"]) < lim[0]:
+                out.append("op %d: open_volume with %d of %d volumes open returned TooManyOpenVolumes" % (k, len(live["v"]), lim[0]))
         elif kind == "closevol":
             inuse = any(v == arg for v in dir_vol.values()) or any(v == arg for v in file_vol.values())
             if arg in live["v"]:
